@@ -1399,3 +1399,141 @@ func (c *Ctx) optOwn(rule string, clause string) (nCmds, nviol int) {
 	}
 	return
 }
+
+// ---------------------------------------------------------------------------------------------
+// MAKE-APPEND: `x = make([]T, n)` (n not the constant 0) gives x n zero elements; filling it with
+// append (directly, or through a method that appends to that field of its receiver) leaves the n
+// zero values in front of the real ones. Accepted: make([]T, 0, n) + append, make([]T, n) + x[i] = v.
+func (c *Ctx) makeAppend(rule string, funcs []*FuncInfo, clause string) (n, nviol int) {
+	c.indexDecls()
+	// methods that append to a field of their receiver
+	appender := map[*types.Func]*types.Var{}
+	for g, fd := range c.declOf {
+		if fd.Recv == nil || fd.Body == nil || len(fd.Recv.List) != 1 || len(fd.Recv.List[0].Names) != 1 {
+			continue
+		}
+		ginfo := c.declPkg[g].TypesInfo
+		recv := ginfo.Defs[fd.Recv.List[0].Names[0]]
+		ast.Inspect(fd.Body, func(m ast.Node) bool {
+			as, ok := m.(*ast.AssignStmt)
+			if !ok || len(as.Lhs) != 1 || len(as.Rhs) != 1 {
+				return true
+			}
+			sel, ok := unparen(as.Lhs[0]).(*ast.SelectorExpr)
+			if !ok || identObj(ginfo, sel.X) != recv {
+				return true
+			}
+			call, ok := unparen(as.Rhs[0]).(*ast.CallExpr)
+			if !ok || len(call.Args) < 2 {
+				return true
+			}
+			if id, ok := unparen(call.Fun).(*ast.Ident); ok {
+				if b, ok := ginfo.Uses[id].(*types.Builtin); ok && b.Name() == "append" {
+					if fv, ok := ginfo.Uses[sel.Sel].(*types.Var); ok && fv.IsField() && c.canon(ginfo, call.Args[0], nil) == c.canon(ginfo, as.Lhs[0], nil) {
+						appender[g] = fv
+					}
+				}
+			}
+			return true
+		})
+	}
+	for _, fi := range funcs {
+		if fi.Decl.Body == nil {
+			continue
+		}
+		info := fi.Pkg.TypesInfo
+		type mk struct {
+			lhs string
+			pos token.Pos
+			end token.Pos
+			fld *types.Var
+			own string // canon of the owner expression when lhs is owner.field
+		}
+		var makes []mk
+		ast.Inspect(fi.Decl.Body, func(m ast.Node) bool {
+			as, ok := m.(*ast.AssignStmt)
+			if !ok || len(as.Lhs) != len(as.Rhs) {
+				return true
+			}
+			for i, r := range as.Rhs {
+				call, ok := unparen(r).(*ast.CallExpr)
+				if !ok || len(call.Args) != 2 {
+					continue
+				}
+				id, ok := unparen(call.Fun).(*ast.Ident)
+				if !ok {
+					continue
+				}
+				if b, ok := info.Uses[id].(*types.Builtin); !ok || b.Name() != "make" {
+					continue
+				}
+				if _, isSlice := info.TypeOf(call.Args[0]).Underlying().(*types.Slice); !isSlice {
+					continue
+				}
+				if tv, ok := info.Types[call.Args[1]]; ok && tv.Value != nil && tv.Value.String() == "0" {
+					continue
+				}
+				x := mk{lhs: c.canon(info, as.Lhs[i], nil), pos: as.Pos(), end: as.End()}
+				if sel, ok := unparen(as.Lhs[i]).(*ast.SelectorExpr); ok {
+					if fv, ok := info.Uses[sel.Sel].(*types.Var); ok && fv.IsField() {
+						x.fld = fv
+						x.own = c.canon(info, sel.X, nil)
+					}
+				}
+				makes = append(makes, x)
+			}
+			return true
+		})
+		for k, x := range makes {
+			n++
+			key := fmt.Sprintf("%s/make#%d %s", funcName(fi.Obj), k+1, x.lhs)
+			indexed, appended := false, token.NoPos
+			how := ""
+			ast.Inspect(fi.Decl.Body, func(m ast.Node) bool {
+				switch s := m.(type) {
+				case *ast.AssignStmt:
+					if s.Pos() <= x.pos {
+						return true
+					}
+					for i, l := range s.Lhs {
+						if ie, ok := unparen(l).(*ast.IndexExpr); ok && c.canon(info, ie.X, nil) == x.lhs {
+							indexed = true
+						}
+						if c.canon(info, l, nil) == x.lhs && i < len(s.Rhs) {
+							if call, ok := unparen(s.Rhs[i]).(*ast.CallExpr); ok && len(call.Args) >= 2 {
+								if id, ok := unparen(call.Fun).(*ast.Ident); ok {
+									if b, ok := info.Uses[id].(*types.Builtin); ok && b.Name() == "append" && c.canon(info, call.Args[0], nil) == x.lhs && !appended.IsValid() {
+										appended, how = s.Pos(), "append("+x.lhs+", ...)"
+									}
+								}
+							}
+						}
+					}
+				case *ast.CallExpr:
+					if s.Pos() <= x.end {
+						return true
+					}
+					if id, ok := unparen(s.Fun).(*ast.Ident); ok {
+						if b, ok := info.Uses[id].(*types.Builtin); ok && b.Name() == "copy" && len(s.Args) == 2 && c.canon(info, s.Args[0], nil) == x.lhs {
+							indexed = true
+						}
+					}
+					if g := calleeOf(info, s); g != nil && x.fld != nil && appender[g] == x.fld {
+						if sel, ok := unparen(s.Fun).(*ast.SelectorExpr); ok && c.canon(info, sel.X, nil) == x.own && !appended.IsValid() {
+							appended, how = s.Pos(), x.own+"."+g.Name()+"(...), which appends to "+x.fld.Name()
+						}
+					}
+				}
+				return true
+			})
+			switch {
+			case appended.IsValid() && !indexed:
+				nviol++
+				c.Violation(rule, key, appended, fmt.Sprintf("%s is created with make(.., n), i.e. already holding n zero values, and is then filled by %s: the zero values stay in front of the real elements", x.lhs, how)).Clause = clause
+			default:
+				c.OK(rule, key, x.pos, "the slice made with a length is filled by index (or not appended to)")
+			}
+		}
+	}
+	return
+}
